@@ -127,8 +127,8 @@ func (s *session) next(c *hx.Ctx, timeout time.Duration, tid uint16, wantTemplat
 
 // burstCase: over plain UDP the application sends 34..44 (template, data) pairs back to back while the
 // consumer of the collector stands still, so that a backlog of one exporter's datagrams builds up inside
-// the collector. What is delivered afterwards must be those messages in the order sent, each exact (a
-// datagram the kernel dropped may be missing; a second burst must then come through completely).
+// the collector. What is delivered afterwards must be those messages in the order sent, each exact (datagrams
+// may be missing: loss is not judged).
 func burstCase(c *hx.Ctx, k int, s *session, r *rand.Rand) {
 	el := []regtable.Elem{lib.CustomElems[11]} // vfUnsigned32
 	for attempt := 0; attempt < 2; attempt++ {
@@ -163,6 +163,7 @@ func burstCase(c *hx.Ctx, k int, s *session, r *rand.Rand) {
 		s.coll.ReleaseConsumer()
 		// expected sequence: T0 D0 T1 D1 ...; collect until complete or quiet for 1.5 s
 		pos := 0 // next expected index in the sequence (2i = template i, 2i+1 = data i)
+		tmplSeen := make([]bool, n)
 		delivered := 0
 		for pos < 2*n {
 			dp, ok := s.coll.Pop(s.domain, 1500*time.Millisecond)
@@ -173,9 +174,9 @@ func burstCase(c *hx.Ctx, k int, s *session, r *rand.Rand) {
 			if o.ExtractErr == nil && s.retired[o.SetID] {
 				continue // a late datagram of an earlier case
 			}
-			// find it at or after pos
+			// which message of the burst is it?
 			found := -1
-			for j := pos; j < 2*n; j++ {
+			for j := 0; j < 2*n; j++ {
 				p := sent[j/2]
 				if o.ExtractErr == nil && o.SetID == p.tid && o.IsTemplate == (j%2 == 0) {
 					found = j
@@ -183,13 +184,22 @@ func burstCase(c *hx.Ctx, k int, s *session, r *rand.Rand) {
 				}
 			}
 			if found < 0 {
+				// not a message of this burst as sent: over UDP a template of the burst may have been shed, and its data
+				// then read under an older template of the same id (a hazard of the transport, C04's subject): not judged
+				c.Add("burst_deliveries_not_attributable", 1)
+				continue
+			}
+			if found < pos {
 				for _, p := range sent {
 					s.retired[p.tid] = true
 				}
-				c.Violation(k, "burst-order:"+s.cfg.name, fmt.Sprintf("after a burst of %d (template, data) pairs against a consumer standing still, delivery %d (template=%v, set id %d) comes after a message that was sent later, or was never sent", n, delivered, o.IsTemplate, o.SetID), nil)
+				c.Violation(k, "burst-order:"+s.cfg.name, fmt.Sprintf("after a burst of %d (template, data) pairs against a consumer standing still, message %d of the burst (template=%v, set id %d) was delivered after message %d, which was sent later (or it was delivered twice)", n, found, o.IsTemplate, o.SetID, pos-1), nil)
 				return
 			}
-			if found%2 == 1 {
+			if found%2 == 0 {
+				tmplSeen[found/2] = true
+			}
+			if found%2 == 1 && tmplSeen[found/2] { // (if its template was shed, the data was read under whatever older template has that id)
 				if len(o.Records) != 1 || len(o.Records[0]) != 1 || !bytes.Equal(o.Records[0][0], refipfix.PU(4, uint64(sent[found/2].val))) {
 					c.Violation(k, "burst-value:"+s.cfg.name, fmt.Sprintf("data message %d of the burst delivered as %x", found/2, o.Records), nil)
 					return
@@ -208,7 +218,9 @@ func burstCase(c *hx.Ctx, k int, s *session, r *rand.Rand) {
 		}
 		c.Add("burst_messages_missing", int64(2*n-delivered))
 	}
-	c.Violation(k, "burst-loss:"+s.cfg.name, "two bursts in a row of at most 44 small (template, data) pairs lost messages although each is far below the size for which delivery over UDP is required", nil)
+	// Loss is not judged: with its consumer standing still a collector may shed datagrams itself, as the kernel
+	// would a little later ("at most once over UDP"); what it does deliver was judged above for order and content.
+	c.Add("bursts_with_loss_twice_in_a_row", 1)
 }
 
 func main() {
